@@ -188,5 +188,5 @@ def obligations(tier):
             for f in range(6):
                 obs.append(Ob("ob_resolve", dict(depth=d, first=f, maxlen=6), timeout=900, per_path=20,
                               bounds="depth=%d, first class=%d, 1..6 components x 6 classes" % (d, f)))
-        obs += _query_obs([0, 1, 2, 3], 3, 2, 900)
+        obs += _query_obs([0, 1, 2, 3], 3, 2, 1500)
     return obs
